@@ -36,6 +36,10 @@ type Hint struct {
 	MaskLen int    `json:"masklen,omitempty"`
 	// Form16 (IPv4 allocator): pass the address in 16-byte form
 	Form16 bool `json:"form16,omitempty"`
+	// Form4 (IPv6 allocator, pool inside ::ffff:0:0/96): pass the address of a free/held hint in its
+	// 4-byte form. It is an IPv4 hint: it counts as none for the length, and nothing is demanded
+	// about the block - only that the allocator copes
+	Form4 bool `json:"form4,omitempty"`
 }
 
 // FreeSpec names the argument of a Free call symbolically.
@@ -249,6 +253,9 @@ func (m *model) resolveHint(h Hint) resolvedHint {
 				return r
 			}
 			r.ipnet.IP, r.names, r.idx = ip, true, idx
+			if ip4 := ip.To4(); h.Form4 && ip4 != nil {
+				r.ipnet.IP, r.names = ip4, false
+			}
 		case "below", "above":
 			var idx *big.Int
 			if h.Kind == "below" {
